@@ -166,6 +166,49 @@ def replay_state(ctx, rnd, s, win, wlo, whi, idx, pid='C01'):
             ctx.violation(f"{pid}|form|{s['k']}|empty", f'contains(0-length) raised {ex!r}', {'shape': s})
 
 
+def replay_to_polygon(ctx, rnd, st, wlo, whi, idx, pid='C01'):
+    """RectanglePixelRegion.corners / to_polygon() against Geometry!Corners2h / ToPolygon2h."""
+    s, res = st['shape'], st['res']
+    U = 2
+    fr = pick_frame(rnd, U)
+    try:
+        region = geom.build(s, fr)
+        region.meta['label'] = 'kept'
+        region.visual['color'] = 'red'
+        poly = region.to_polygon()
+        corners = np.asarray(region.corners, dtype=float)
+    except Exception as ex:  # noqa
+        ctx.violation(f'{pid}|to_polygon|raises|{type(ex).__name__}', f'to_polygon / corners raised {ex!r}', {'shape': s})
+        return
+    m = float(res['scale'] * U)
+    want = np.array([[v[0] / m * fr.scale + fr.tx, v[1] / m * fr.scale + fr.ty] for v in res['poly']['vs']])
+    tol = 1e-9 * (abs(fr.scale) * 40 + abs(fr.tx) + abs(fr.ty))
+    got = np.column_stack([np.atleast_1d(poly.vertices.x), np.atleast_1d(poly.vertices.y)]) if type(poly).__name__ == 'PolygonPixelRegion' else None
+    ctx.case(('to_polygon', geom.shape_key(s)), True)
+    case = {'shape': s, 'frame': vars(fr), 'model_corners': want.tolist(), 'corners': corners.tolist()}
+    if got is None or got.shape != (4, 2) or np.abs(got - want).max() > tol or corners.shape != (4, 2) or np.abs(corners - want).max() > tol:
+        ctx.violation(f'{pid}|to_polygon|corners', 'corners / to_polygon().vertices are not the rotated corners of the rectangle (in the documented order)',
+                      dict(case, polygon=None if got is None else got.tolist()))
+        return
+    if dict(poly.meta) != dict(region.meta) or dict(poly.visual) != dict(region.visual) or poly.meta is region.meta or poly.visual is region.visual:
+        ctx.violation(f'{pid}|to_polygon|meta', 'to_polygon() does not carry an independent copy of meta/visual', case)
+        return
+    xs_u, ys_u = geom.window(wlo, whi)
+    xs = xs_u / U * fr.scale + fr.tx
+    ys = ys_u / U * fr.scale + fr.ty
+    out, shp = query(poly, xs, ys, RESHAPES[idx % len(RESHAPES)])
+    if not check_result_form(ctx, out, shp, s, 'to_polygon', pid):
+        return
+    model = np.asarray(res['win'])
+    real = out.reshape(-1).astype(int)
+    care = model != 2
+    bad = np.nonzero(care & (real != model))[0]
+    if len(bad):
+        i = int(bad[0])
+        ctx.violation(f'{pid}|to_polygon|member', f'to_polygon() of a rectangle answers {len(bad)} window points differently from the rectangle',
+                      dict(case, first_bad_point_units=[int(xs_u[i]), int(ys_u[i])], model=int(model[i]), real=int(real[i])))
+
+
 def kind_sig(s):
     if s['k'] == 'compound':
         return f"compound-{s['op']}"
@@ -194,6 +237,18 @@ def run(ctx):
         ctx.traces += n
         ctx.note(f'replayed_{fam}', n)
         tlc.cleanup(res.workdir)
+    res = tlc.run('MC_Geometry', cfg_text=cfg('FamRectangles', 'OpsToPolygon', -12, 12, ['InvToPolygon']), dump=True, tag='c01tp')
+    ctx.tlc(res, 'MC_Geometry to_polygon / corners of every rectangle (InvToPolygon)')
+    if res.violated:
+        ctx.violation(f'C01|model|{res.violated}', f'Geometry.tla: invariant {res.violated} fails in the model', {'trace': res.trace})
+    else:
+        n = 0
+        for st in parse_dump(res.dump_path, only='pc = "ret"'):
+            replay_to_polygon(ctx, rnd, st, -12, 12, n)
+            n += 1
+        ctx.traces += n
+        ctx.note('replayed_to_polygon', n)
+    tlc.cleanup(res.workdir)
     trace_validation(ctx, rnd)
     ctx.assumptions += ['rotation angles are the 44 rational directions; sizes and centres dyadic',
                         'EDGE points (exact equality or within 2^-20 relative) are not compared']
